@@ -269,6 +269,7 @@ func buildProperties() []Property {
 			Decides:    "panic classes visible in code shape (zero divisor, negative shift, uncomparable interface comparison, missing table row) Every computed index into a fixed-size array is proven in range (enumeration, range loop, branch facts, or ring cursor by interval interpretation). The parser's next() moves its token window by one slot on every return path, failures included, so the unconditional backup() of its callers is symmetric (no endless re-parsing at the end of the input).",
 			NotDecided: "termination on arbitrary text, slice bounds in general, memory exhaustion",
 			Rules: []RuleDef{
+				{"R-INCLUDE-GUARD", 1, ruleIncludeGuard},
 				{"R-MARK-ROLLBACK", 2, ruleMarkRollback},
 				{"R-NEXT-ADVANCES", 2, ruleNextAdvances},
 				{"R-ARRAY-INDEX", 20, ruleArrayIndex},
